@@ -13,6 +13,7 @@
 // sieve states wherever the definition determines the result.
 #include "../sim/harness.h"
 #include "../sim/rand_seam.h"
+#include "../sim/alloc_seam.h"
 #include <symengine/ntheory.h>
 #include <symengine/ntheory_funcs.h>
 #include <symengine/prime_sieve.h>
@@ -216,6 +217,11 @@ Json gen(uint64_t seed, const std::string &tier)
     Json cfg = Json::object();
     unsigned nlists = 2 + (unsigned)g.below(thorough ? 5 : 3);
     cfg["nlists"] = nlists;
+    // allocator seam: when a freed address is handed out again (a cache keyed
+    // by object address is right only until the object dies)
+    static const char *pol[] = {"system", "lifo", "lifo", "fifo", "random"};
+    cfg["policy"] = pol[g.below(5)];
+    cfg["alloc_seed"] = (long long)(g.next() >> 2);
     plan["config"] = cfg;
     // swarm: which function families this run concentrates on
     std::vector<unsigned> fw(NFUNCS, 2);
@@ -234,6 +240,7 @@ Json gen(uint64_t seed, const std::string &tier)
     unsigned nops = 8 + (unsigned)g.below(thorough ? 50 : 30);
     unsigned force_share = (unsigned)g.below(4); // swarm: 0 = no forced GMP draws
     Json ops = Json::array();
+    u64 last_m = 0;
     std::vector<size_t> call_idx;
     for (unsigned k = 0; k < nops; k++) {
         Json o = Json::object();
@@ -364,6 +371,31 @@ Json gen(uint64_t seed, const std::string &tier)
                         o["n"] = (long long)(1 + g.below(1000000));
                     } else {
                         u64 m = pick_modulus(g);
+                        // often related to the modulus of the previous call:
+                        // m -> 2m, m/2, m*p, m/p (a stale per-modulus result
+                        // is most easily mistaken for the neighbour's)
+                        if (last_m && g.chance(1, 4)) {
+                            switch (g.below(4)) {
+                                case 0:
+                                    m = last_m * 2;
+                                    break;
+                                case 1:
+                                    m = last_m % 2 == 0 ? last_m / 2 : last_m * 2;
+                                    break;
+                                case 2: {
+                                    auto fs = factorise(last_m);
+                                    m = last_m * fs[g.below(fs.size())].first;
+                                    break;
+                                }
+                                default: {
+                                    auto fs = factorise(last_m);
+                                    m = last_m / fs[g.below(fs.size())].first;
+                                }
+                            }
+                            if (m < 2 || m > 40000)
+                                m = last_m;
+                        }
+                        last_m = m;
                         o["m"] = (long long)m;
                         o["a"] = (long long)g.below(g.chance(1, 8) ? 3 * m : m);
                         o["n"] = (long long)(1 + g.below(g.chance(1, 2) ? 4 : 12));
@@ -1453,6 +1485,20 @@ void exec(Run &run)
     Sieve::set_clear(true);
     Sieve::set_sieve_size(32);
     Sieve::clear();
+    std::string pol = run.plan.at("config").gets("policy", "system");
+    simalloc::configure(pol == "lifo"     ? simalloc::LIFO
+                        : pol == "fifo"   ? simalloc::FIFO
+                        : pol == "random" ? simalloc::RANDOM
+                                          : simalloc::SYSTEM,
+                        (uint64_t)run.plan.at("config").geti("alloc_seed", 1), (size_t)1 << 30,
+                        (size_t)4 << 30);
+    struct Off {
+        ~Off()
+        {
+            simalloc::deactivate();
+        }
+    } off;
+    run.fault("alloc_policy_" + pol);
     std::unique_ptr<Sieve::iterator> held;
     size_t held_index = 0;
     std::map<std::string, std::string> first_result; // call key -> canon
